@@ -4,6 +4,7 @@
   `find_match_length`; hence the chosen `subLength` prefix is a balanced segment inside the track.
 -/
 import Ctrmml.Proofs.OptQSort
+import Ctrmml.Proofs.OptSrcRoom
 namespace Ctrmml.OptSteps
 open Ctrmml Ctrmml.Tree Ctrmml.Expand Ctrmml.Rewrite Ctrmml.Opt Tables
 
@@ -11,6 +12,11 @@ open Ctrmml Ctrmml.Tree Ctrmml.Expand Ctrmml.Rewrite Ctrmml.Opt Tables
 def SubOK (song : Song) (m : SAMap) (srcT srcStart : Nat) (isBal : Nat → Bool) (len : Nat) : Prop :=
   1 ≤ len ∧ isBal len = true ∧
     ∃ dstT dstPos wl len0 ll, findMatchLength song m srcT srcStart dstT dstPos wl = .ok (len0, ll) ∧ len ≤ len0
+
+theorem SubOK.mono {song : Song} {m : SAMap} {srcT srcStart : Nat} {isBal isBal' : Nat → Bool} {len : Nat}
+    (h : SubOK song m srcT srcStart isBal' len) (hb : ∀ len, isBal' len = true → isBal len = true) :
+    SubOK song m srcT srcStart isBal len :=
+  ⟨h.1, hb _ h.2.1, h.2.2⟩
 
 def CInv (P : Nat → Prop) (c : Counter) : Prop := ∀ p ∈ c, P p.1
 
@@ -101,6 +107,15 @@ theorem midBody_cnt {song : Song} {m : SAMap} {srcT srcStart dstT : Nat} {dst : 
   · exact jpSame_cnt hsc hr
   · exact jpSame_cnt hsc hr
 
+theorem midBodyS_cnt {song : Song} {m : SAMap} {sa : SA} {srcT srcStart dstT : Nat} {dst : List Event} {isBal : Nat → Bool}
+    {a : Nat} {s : Match × Counter × Counter × Int × Bool}
+    (hsc : CInv (SubOK song m srcT srcStart isBal) s.2.1)
+    {r : ForInStep (Match × Counter × Counter × Int × Bool)}
+    (hr : midBodyS song m sa srcT srcStart dstT dst isBal a s = .ok r) :
+    ∃ b', r = .yield b' ∧ CInv (SubOK song m srcT srcStart isBal) b'.2.1 := by
+  obtain ⟨lv, hr'⟩ := midBodyS_cases hr
+  exact midBody_cnt (s := (s.1, s.2.1, s.2.2.1, s.2.2.2.1, lv)) hsc hr'
+
 theorem otherBody_cnt {song : Song} {m : SAMap} {srcT srcStart dstT : Nat} {isBal : Nat → Bool}
     {dstPos : Nat} {s : Counter × Counter} (hsc : CInv (SubOK song m srcT srcStart isBal) s.1)
     {r : ForInStep (Counter × Counter)} (hr : otherBody song m srcT srcStart dstT isBal dstPos s = .ok r) :
@@ -127,9 +142,9 @@ theorem otherBody_cnt {song : Song} {m : SAMap} {srcT srcStart dstT : Nat} {isBa
     · simp only [pure, Except.pure, Except.ok.injEq] at hr
       exact ⟨_, hr.symm, hb⟩
 
-theorem trackBody_cnt {song : Song} {m : SAMap} {srcT srcStart : Nat} {isBal : Nat → Bool}
+theorem trackBody_cnt {song : Song} {m : SAMap} {sa : SA} {srcT srcStart : Nat} {isBal : Nat → Bool}
     {x : Nat × List Event} {s : Match × Counter} (hsc : CInv (SubOK song m srcT srcStart isBal) s.2)
-    {r : ForInStep (Match × Counter)} (hr : trackBody song m srcT srcStart isBal x s = .ok r) :
+    {r : ForInStep (Match × Counter)} (hr : trackBody song m sa srcT srcStart isBal x s = .ok r) :
     ∃ b', r = .yield b' ∧ CInv (SubOK song m srcT srcStart isBal) b'.2 := by
   unfold trackBody at hr
   split at hr
@@ -141,27 +156,30 @@ theorem trackBody_cnt {song : Song} {m : SAMap} {srcT srcStart : Nat} {isBal : N
     refine ⟨_, hr.symm, ?_⟩
     exact forIn_inv' _ (fun s : Match × Counter × Counter × Int × Bool =>
       CInv (SubOK song m srcT srcStart isBal) s.2.1) _ _ hsc
-      (fun _ _ b hb r hr => midBody_cnt hb hr) r1 hr1
+      (fun _ _ b hb r hr => midBodyS_cnt hb hr) r1 hr1
   · obtain ⟨r1, hr1, hr⟩ := bind_ok hr
     simp only [pure, Except.pure, Except.ok.injEq] at hr
     refine ⟨_, hr.symm, ?_⟩
     exact forIn_inv' _ (fun s : Counter × Counter => CInv (SubOK song m srcT srcStart isBal) s.1) _ _ hsc
       (fun _ _ b hb r hr => otherBody_cnt hb hr) r1 hr1
 
-/-- **`find_match`, the subroutine candidate**: a positive `subScore` comes with a counted length -/
-theorem findMatch_subOK {song : Song} {m : SAMap} {srcT srcStart : Nat} {mt : Match} {src : List Event}
+/-- **`find_match`, the subroutine candidate**: a positive `subScore` comes with a counted length
+(`bal` = the `balanced` vector the run computed) -/
+theorem findMatch_subOK_bal {song : Song} {m : SAMap} {srcT srcStart : Nat} {mt : Match} {src : List Event}
     (hsrc : song.track? srcT = some src) (h : findMatch song m srcT srcStart = .ok mt) :
-    0 < mt.subScore →
-      SubOK song m srcT srcStart (fun len => ((balancedPrefixes src srcStart)[len]?).getD false) mt.subLength := by
+    ∃ bal, sourcePrefixes (getSA m srcT) src srcStart = .ok bal ∧ (0 < mt.subScore →
+      SubOK song m srcT srcStart (fun len => (bal[len]?).getD false) mt.subLength) := by
   rw [findMatch_eq song m srcT srcStart src hsrc] at h
+  obtain ⟨bal, hbal, h⟩ := bind_ok h
+  refine ⟨bal, hbal, ?_⟩
   obtain ⟨s, hs, h⟩ := bind_ok h
   obtain ⟨mt2, h2, h⟩ := bind_ok h
   simp only [pure, Except.pure, Except.ok.injEq] at h
   subst h
-  have hQ : CInv (SubOK song m srcT srcStart (fun len => ((balancedPrefixes src srcStart)[len]?).getD false)) s.2 ∧
+  have hQ : CInv (SubOK song m srcT srcStart (fun len => (bal[len]?).getD false)) s.2 ∧
       s.1.subScore = 0 := by
     refine forIn_inv' _ (fun s : Match × Counter =>
-      CInv (SubOK song m srcT srcStart (fun len => ((balancedPrefixes src srcStart)[len]?).getD false)) s.2 ∧
+      CInv (SubOK song m srcT srcStart (fun len => (bal[len]?).getD false)) s.2 ∧
         s.1.subScore = 0) _ _ ⟨fun p hp => by simp at hp, rfl⟩ ?_ s hs
     intro x _ b hb r hr
     obtain ⟨b', h1, h2⟩ := trackBody_cnt hb.1 hr
@@ -178,10 +196,11 @@ theorem findMatch_subOK {song : Song} {m : SAMap} {srcT srcStart : Nat} {mt : Ma
       rw [← hr]
       refine forIn_inv' _ (fun s : Match × Counter × Counter × Int × Bool => s.1.subScore = 0) _ _ hb.2 ?_ r1 hr1
       intro a _ c hc r hr
+      obtain ⟨lv0, hr⟩ := midBodyS_cases hr
       unfold midBody at hr
       simp only at hr
       have key : ∀ ld lv, jpSame song m srcT srcStart x.1
-          (fun len => ((balancedPrefixes src srcStart)[len]?).getD false) a c.1 c.2.1 c.2.2.1 ld lv = .ok r →
+          (fun len => (bal[len]?).getD false) a c.1 c.2.1 c.2.2.1 ld lv = .ok r →
           ∃ b', r = .yield b' ∧ b'.1.subScore = 0 := by
         intro ld lv hj
         obtain ⟨mt', sc', last', hr', hmt⟩ := jpSame_spec hj
@@ -203,12 +222,12 @@ theorem findMatch_subOK {song : Song} {m : SAMap} {srcT srcStart : Nat} {mt : Ma
       rw [← hr]; exact hb.2
   -- the final loop over the sorted counter
   have hsorted : ∀ x ∈ (s.2.toArray.qsort (fun a b => a.1 < b.1)).toList,
-      SubOK song m srcT srcStart (fun len => ((balancedPrefixes src srcStart)[len]?).getD false) x.1 := by
+      SubOK song m srcT srcStart (fun len => (bal[len]?).getD false) x.1 := by
     intro x hx
     have := (qsort_perm s.2.toArray (fun a b => a.1 < b.1)).mem_iff.1 hx
     exact hQ.1 x (by simpa using this)
   have hF := forIn_inv' finalBody (fun mt' : Match => 0 < mt'.subScore →
-      SubOK song m srcT srcStart (fun len => ((balancedPrefixes src srcStart)[len]?).getD false) mt'.subLength) _
+      SubOK song m srcT srcStart (fun len => (bal[len]?).getD false) mt'.subLength) _
     { s.1 with trackId := srcT, position := srcStart }
     (fun h0 => by
       have : (0 : Int) < s.1.subScore := h0
@@ -222,19 +241,26 @@ theorem findMatch_subOK {song : Song} {m : SAMap} {srcT srcStart : Nat} {mt : Ma
         exact ⟨_, hr.symm, hb⟩) mt2 h2
   exact hF
 
-/-! ## `balanced[len]` and the depth scan -/
+/-- **`find_match`, the subroutine candidate**: a positive `subScore` comes with a counted length that
+the loop structure of the source phrase allows (`balancedPrefixes`, the depth-only vector) -/
+theorem findMatch_subOK {song : Song} {m : SAMap} {srcT srcStart : Nat} {mt : Match} {src : List Event}
+    (hsrc : song.track? srcT = some src) (h : findMatch song m srcT srcStart = .ok mt) :
+    0 < mt.subScore →
+      SubOK song m srcT srcStart (fun len => ((balancedPrefixes src srcStart)[len]?).getD false) mt.subLength := by
+  obtain ⟨bal, hbal, h2⟩ := findMatch_subOK_bal hsrc h
+  intro hp
+  exact (h2 hp).mono (fun len hl => (sourcePrefixes_spec hbal len hl).1)
 
-theorem go_acc (l : List Event) : ∀ (d : Int) (acc : List Bool),
-    balancedPrefixes.go l d acc = acc.reverse ++ balancedPrefixes.go l d [] := by
-  induction l with
-  | nil => intro d acc; simp [balancedPrefixes.go]
-  | cons e rest ih =>
-    intro d acc
-    simp only [balancedPrefixes.go]
-    split
-    · simp
-    · rw [ih _ (_ :: acc), ih _ [_]]
-      simp
+/-- **`find_match`, the stack budget of the source phrase (repair of D18)**: every event of the phrase
+that becomes a subroutine — the occurrence `find_match` was asked about, which `apply_match` replaces
+by a call like the copies — passed the stack test `stack_depth < max_src_stack` -/
+theorem findMatch_subRoom {song : Song} {m : SAMap} {srcT srcStart : Nat} {mt : Match} {src : List Event}
+    (hsrc : song.track? srcT = some src) (h : findMatch song m srcT srcStart = .ok mt) (hp : 0 < mt.subScore) :
+    ∀ i, srcStart ≤ i → i < srcStart + mt.subLength → SrcRoom (getSA m srcT) i := by
+  obtain ⟨bal, hbal, h2⟩ := findMatch_subOK_bal hsrc h
+  exact (sourcePrefixes_spec hbal _ (h2 hp).2.1).2
+
+/-! ## `balanced[len]` and the depth scan -/
 
 /-- one event: if the scan goes on, the `int` depth of `find_match` follows it -/
 theorem scan_step {e : Event} {r : List Event} {dn : Nat} {x : Nat} (h : scan (e :: r) dn = some x) :
